@@ -622,6 +622,126 @@ func clusterVehicle(o *common.Opts, nInputs int, report func(witness)) (sent int
 	return sent, nodes, note
 }
 
+// hostileMembership are membership commands with arguments no administrator would send on purpose but any client can:
+// a peer address that is not a URL, ids that name nobody, an id that is already a member. A three-node cluster keeps
+// its quorum whatever they do to the configuration (one phantom member more still leaves 3 of 4), so after each of
+// them every node has to be alive and has to commit a write.
+var hostileMembership = [][]string{
+	{"rconf", "add", "4", "garbage"}, {"rconf", "add", "4", "http://127.0.0.1:1\r\nx"}, {"rconf", "add", "4", "127.0.0.1:9999"}, {"rconf", "add", "4", "ftp://127.0.0.1:21"},
+	{"rconf", "add", "4", "http://127.0.0.1"}, {"rconf", "add", "4", "http://[::1"}, {"rconf", "add", "4", ""}, {"rconf", "add", "0", "http://127.0.0.1:1"},
+	{"rconf", "add", "1", "http://127.0.0.1:1"}, {"rconf", "delete", "99"}, {"rconf", "delete", "0"}, {"rconf", "update", "1", "x"}, {"rconf", "update", "9", "http://127.0.0.1:1"},
+	{"rconf", "add", "18446744073709551615", "http://127.0.0.1:1"},
+}
+
+func membershipVehicle(o *common.Opts, n int, report func(witness)) (done int, note string) {
+	if procs.Bin(false) == "" {
+		return 0, "server binary not available"
+	}
+	r := rand.New(rand.NewSource(o.Seed + 991))
+	idx := r.Perm(len(hostileMembership))
+	if n > len(idx) {
+		n = len(idx)
+	}
+	// the class "peer address that is not a URL" is in every run
+	picks := [][]string{hostileMembership[r.Intn(6)]}
+	for _, i := range idx {
+		if len(picks) >= n {
+			break
+		}
+		if i >= 6 || n == len(hostileMembership) {
+			dup := false
+			for _, p := range picks {
+				if strings.Join(p, " ") == strings.Join(hostileMembership[i], " ") {
+					dup = true
+				}
+			}
+			if !dup {
+				picks = append(picks, hostileMembership[i])
+			}
+		}
+	}
+	var mu sync.Mutex
+	var wg sync.WaitGroup
+	sem := make(chan struct{}, 4)
+	notes := map[string]bool{}
+	for k, argv := range picks {
+		wg.Add(1)
+		go func(k int, argv []string) {
+			defer wg.Done()
+			sem <- struct{}{}
+			defer func() { <-sem }()
+			shown := seqrun.QuoteFull(respc.Cmd(argv...))
+			for try := 0; try < 3; try++ {
+				dir := filepath.Join(o.Work, fmt.Sprintf("mb-%d-%d", k, try))
+				cl, err := cluster.New(dir, 3, false, nil)
+				if err != nil {
+					continue
+				}
+				if err := cl.StartAll(); err != nil || !cl.WaitAllWritable(90*time.Second) {
+					cl.Stop()
+					_ = os.RemoveAll(dir)
+					if try == 2 {
+						mu.Lock()
+						notes["three-node cluster did not become writable"] = true
+						mu.Unlock()
+					}
+					continue
+				}
+				c, err := respc.Dial(cl.Nodes[k%3].Addr(), 10*time.Second)
+				if err == nil {
+					_, _ = c.Do(argv...)
+					c.Close()
+				}
+				time.Sleep(1500 * time.Millisecond)
+				bad := ""
+				for _, nd := range cl.Nodes {
+					if nd.Srv.WaitExit(10 * time.Millisecond) {
+						bad = fmt.Sprintf("node %d exited: %s", nd.ID, nd.Srv.CrashBlock(16))
+						break
+					}
+				}
+				if bad == "" {
+					for _, nd := range cl.Nodes {
+						if !cl.WaitWritable(nd.ID, 30*time.Second) {
+							if nd.Srv.WaitExit(10 * time.Millisecond) {
+								bad = fmt.Sprintf("node %d exited: %s", nd.ID, nd.Srv.CrashBlock(16))
+							} else {
+								bad = fmt.Sprintf("node %d is alive but no write commits through it within 30 s; its goroutines:\n%s", nd.ID, inproc.TopFrames(nd.Srv.Dump(), 10))
+							}
+							break
+						}
+					}
+				}
+				if bad != "" {
+					kind := "tcp-dead"
+					if strings.Contains(bad, "is alive but") {
+						kind = "tcp-hang"
+					}
+					report(witness{Kind: kind, Argv: shown, Detail: "three-node cluster, command sent to node " + strconv.Itoa(k%3+1) + ": " + bad, Sig: kind + "|membership|" + strings.ToUpper(strings.Join(argv[:2], " ")) + "|" + seqrun.Generalise(firstLineOf(bad))})
+				}
+				cl.Stop()
+				_ = os.RemoveAll(dir)
+				mu.Lock()
+				done++
+				mu.Unlock()
+				return
+			}
+		}(k, argv)
+	}
+	wg.Wait()
+	for n := range notes {
+		note += n + "; "
+	}
+	return done, note
+}
+
+func firstLineOf(s string) string {
+	if i := strings.IndexByte(s, '\n'); i > 0 {
+		return s[:i]
+	}
+	return s
+}
+
 func tailOf(s string, n int) string {
 	if len(s) > n {
 		return s[len(s)-n:]
@@ -749,6 +869,16 @@ func main() {
 	if clNote != "" {
 		tcpNote += " cluster vehicle: " + clNote
 	}
+	mbDone, mbNote := membershipVehicle(o, o.Pick(6, len(hostileMembership)), func(w witness) {
+		sigMu.Lock()
+		defer sigMu.Unlock()
+		if _, ok := bySig[w.Sig]; !ok {
+			bySig[w.Sig] = w
+		}
+	})
+	if mbNote != "" {
+		tcpNote += " membership vehicle: " + mbNote
+	}
 	sigs := make([]string, 0, len(bySig))
 	for s := range bySig {
 		sigs = append(sigs, s)
@@ -780,12 +910,12 @@ func main() {
 	}
 	ev := &evidence.Evidence{PropertyID: prop, Tier: o.Tier, Seed: o.Seed, Level: "exploration", WallS: o.Elapsed(), Violations: violations,
 		Coverage: map[string]any{
-			"evaluations":         agg.Inputs + tcpSent + clSent,
+			"evaluations":         agg.Inputs + tcpSent + clSent + mbDone,
 			"distinct_nontrivial": len(agg.Kinds),
 			"rule": "every registered command (from memdb.CmdTable, minus verif.*) x arity 0..N x first argument in {missing key, one key of each of the six types} x adversarial alphabet " +
 				"(full 35-symbol alphabet up to arity 3, command option words + extremes beyond); each input on a fresh preset keyspace under recover, then try-lock sweep of all stripes and probes on the same and another key; " +
 				"distinct = distinct (command, reply kind) pairs observed; TCP: sampled inputs against the real binary with same-connection, same-key, per-stripe and fresh-connection probes; " +
-				"cluster: sampled inputs, malformed membership commands and raw byte strings (empty command, null elements, non-array values) through one-node clusters with same-connection, fresh-connection and commit probes",
+				"cluster: sampled inputs, malformed membership commands and raw byte strings (empty command, null elements, non-array values) through one-node clusters with same-connection, fresh-connection and commit probes; hostile membership commands (peer address that is not a URL, ids that name nobody or an existing member), each on its own three-node cluster, after which every node must be alive and commit a write",
 			"samples":                []any{[]string{"SETRANGE", "ks", "9223372036854775807", "a"}, []string{"ZADD", "kz", "ch", "incr", "nan", "m"}, []string{"XADD", "kx", "maxlen"}},
 			"exhaustive":             inconclusive == "",
 			"inputs_per_command":     agg.PerCmd,
